@@ -35,6 +35,7 @@ BAD = {
     "param-store": "element parameter overwritten during stepping",
     "extra-attr-store": "hidden per-element state stored during stepping",
     "net-attr-store": "hidden state stored on the network during stepping",
+    "state-dict-aliased": "a caller-supplied dictionary is kept as element state",
     "memoised": "memoised function in the dynamics",
     "var-not-fresh": "variables reused across initialisations",
     "class-attr-store": "state stored on a class (shared by all instances) during stepping",
